@@ -851,7 +851,9 @@ fn explore_wide(prop: &str, idx: usize, e: &Entry, t: &mut Tally) {
         t.nontrivial += 1;
         t.hit("wide_inputs");
     };
-    let base: Vec<Item> = required.iter().map(|i| Item::nv(&names[*i], &val(*i, 0))).collect();
+    // members whose effective name is not expressible as a path (kebab-case) cannot be supplied;
+    // if one of them is required no input is mistake-free and the interpreter filters it out
+    let base: Vec<Item> = required.iter().filter(|i| !names[**i].contains('-')).map(|i| Item::nv(&names[*i], &val(*i, 0))).collect();
     run(vec![], t);
     run(base.clone(), t);
     // each other addressable member in each literal form, before and after the required ones
